@@ -147,7 +147,7 @@ var c03HostMatchers = []rconfig.HostMatcher{
 	{Type: "exact", Value: "api.example.com"},
 	{Type: "exact", Value: "host.test:8080"},
 	{Type: "exact", Value: "example.org"},
-	{Type: "glob", Value: "*.example.com"},
+	{Type: "glob", Value: "*.example.com"}, // the same glob text is also used as a path_params expression (other separator!)
 	{Type: "glob", Value: "**.example.com"},
 	{Type: "glob", Value: "{www,api}.example.com"},
 	{Type: "regex", Value: `^.*\.example\.(com|org)$`},
@@ -259,8 +259,14 @@ func (g *gen) c03Route(prefix string) c03Route {
 				rt.Params = append(rt.Params, rconfig.ParameterMatcher{Name: s.Name, Type: "exact", Value: v})
 				rt.capPool[s.Name] = []string{v}
 			case 1:
-				rt.Params = append(rt.Params, rconfig.ParameterMatcher{Name: s.Name, Type: "glob", Value: "{v1,1234,k=v}"})
-				rt.capPool[s.Name] = []string{"v1", "1234", "k=v"}
+				if rng.IntN(3) == 0 {
+					// same text as a host glob; for path values '/' is the separator, so '*' spans dots here
+					rt.Params = append(rt.Params, rconfig.ParameterMatcher{Name: s.Name, Type: "glob", Value: "*.example.com"})
+					rt.capPool[s.Name] = []string{"x.y.example.com", "a.example.com"}
+				} else {
+					rt.Params = append(rt.Params, rconfig.ParameterMatcher{Name: s.Name, Type: "glob", Value: "{v1,1234,k=v}"})
+					rt.capPool[s.Name] = []string{"v1", "1234", "k=v"}
+				}
 			case 2:
 				rt.Params = append(rt.Params, rconfig.ParameterMatcher{Name: s.Name, Type: "regex", Value: `^[a-z0-9 ]+$`})
 				rt.capPool[s.Name] = []string{"v1", "a b", "1234"}
